@@ -1069,12 +1069,46 @@ def dedup(fs):
     return out
 
 
+def gen_f9c_case(rng):
+    """a nested object whose explicit "required" leaves out a property without default (accepted,
+    F9c); rows that omit it: KeyError, or — when the enclosing property has a default — the
+    default silently encoded instead (object_encode's except KeyError)"""
+    names = rng.sample(["a", "b", "c", "d"], rng.choice([2, 3]))
+    props = {k: {"type": "integer", "binaryFormat": rng.choice("bhiq")} for k in names}
+    opt = rng.sample(names, rng.choice([1, len(names) - 1]))
+    inner = {"type": "object", "properties": props, "required": [k for k in names if k not in opt]}
+    if rng.random() < 0.6:
+        inner["default"] = {k: rng.randrange(-9, 9) for k in names}
+    wrap = rng.random()
+    if wrap < 0.5:
+        schema = {"codec": "struct", "type": "object", "properties": {"o": inner, "z": dict(I32)}}
+        mk = lambda o: {"o": o, "z": 7}                                     # noqa: E731
+    else:
+        inner2 = dict(inner)
+        schema = {"codec": "struct", "type": "object",
+                  "properties": {"w": {"type": "array", "items": inner2, "arrayLengthFormat": "B"}}}
+        inner2.pop("default", None)
+        if rng.random() < 0.5:
+            schema["properties"]["w"]["default"] = []
+        mk = lambda o: {"w": [o]}                                           # noqa: E731
+    vals = []
+    for _ in range(3):
+        o = {k: rng.randrange(-9, 9) for k in names}
+        for k in opt:
+            if rng.random() < 0.6:
+                del o[k]
+        vals.append(mk(o))
+    return {"schema": schema, "values": vals}
+
+
 class StructRoundTrip(StructFamily):
     """valid schemas x conforming values: round trip, layout, string form"""
     name = "struct_roundtrip"
 
     def generate(self, rng, tier):
         yield from handwritten_cases()
+        for _ in range(40 if tier == "quick" else 400):
+            yield gen_f9c_case(rng)
         n = 500 if tier == "quick" else 8000
         for i in range(n):
             plain = i % 3 == 0
